@@ -1,5 +1,7 @@
 package c14
 
+import "math"
+
 // The bounded schema grammar.  Everything here is a deterministic slice
 // construction: the enumeration order is part of the replay contract.
 
@@ -18,7 +20,11 @@ func when(k string, g *Node, k2 string, cs ...*Node) *Node {
 	return &Node{Op: "when", S: k, S2: k2, Kids: append([]*Node{g}, cs...)}
 }
 
-var numParams = []*Val{vInt(0), vInt(1), vInt(2), vFloat(2.5), vInt(two53), vInt(two53 + 1)}
+// numParams: bounds of the ordering constraints -- small, fractional, around
+// 2^53 (where a detour through float64 loses the difference) and at both ends
+// of the int64 range (where a difference of two ints wraps), both signs.
+var numParams = []*Val{vInt(0), vInt(1), vInt(2), vFloat(2.5), vInt(two53), vInt(two53 + 1),
+	vInt(-2), vFloat(-2.5), vInt(-two53 - 1), vInt(math.MaxInt64), vInt(math.MinInt64)}
 
 // allLeaves: every parameterised leaf constraint of the alphabet.
 func allLeaves() []*Node {
